@@ -143,6 +143,15 @@ Proof.
   exists sched. split; [reflexivity|]. now apply find_cex_sound.
 Qed.
 
+(* SAME PACKET KINDS.  tx_safeb also requires that registration and roll-back apply to the same packets:
+   both take (tid, name) from requestTransaction under the same guard, and requestTransaction
+   knows exactly the connect and createStream requests (regenerated from the source).  A roll-back
+   applying to more kinds (every command packet with tid > 0) is rejected: a failed write of a
+   call or of a response would delete the entry of an outstanding request with the same number. *)
+Example c04_wide_rollback_rejected :
+  tx_safeb wide_rollback_skel = false /\ k_same_kinds repo_skel = true.
+Proof. vm_compute. auto. Qed.
+
 (* REGISTERING BEFORE THE FLUSH IS NOT ENOUGH.  With the registration inside WriteMessage, after the
    chunk writes and before the flush, the request can be complete at the peer (a chunk write went
    through to the transport) while it is still unregistered: rejected by the predicate, and
